@@ -6,19 +6,21 @@ L1 (in-process, catch_unwind + watchdog; outcomes line / PANIC / HANG / CRASH):
       strings of length 5..12 over both: line_to_cmds -> per segment parse_line, is_arithmetic
       (compared with the model), the REAL do_expansion and CommandLine::from_line
       (implementation only), then the model's planner + first-word look-ups applied to the
-      implementation's expanded tokens must equal the implementation's plan and look-ups.
+      implementation's expanded tokens must equal the implementation's plan and look-ups
+      (a wordless stage must be REJECTED: E(EEmpty)).
   L1b `hl`/`ws`/`misc`: highlighter ranges, escaped_word_start, is_arithmetic on every string up
       to length 4 (thorough 5) over the 12-symbol multi-byte alphabet HL12 and on the L1a strings.
   L1c `hlr`: find_token_range_heuristic at ARBITRARY byte offsets (inside characters, past the
       end) and arbitrary tokens: the model's Panic must coincide with the implementation's.
-L2 (real binary, watchdog): A14 strings up to length 3 (thorough 4) and grammar/mutation
+L2 (real binary, watchdog): A14 strings up to length 2 + 900 of length 3 (thorough: all up to 4) and grammar/mutation
       generated lines up to 200 chars with multi-byte text, each through `cicada -c <line>` and as
       a two-line script <line> / <sentinel>: no crash status (101/134/139/signal), no timeout,
       no panic message, the sentinel line still runs.
 L3 (thorough; a few sessions in quick) pty: random printable-Unicode key sequences with TAB and
       Enter, then a sentinel command must be answered.
-Known classes: `empty-command` (own, decided by the model on the implementation's tokens) and
-the foreign classes of Model/C05Classes.v (mirrored here, compared with the extracted version)."""
+No own known class is left (the empty-command panic is repaired in /repo by baff407 and the planner model follows
+it: theorem C05_full). One foreign class of Model/C05Classes.v (C19 calculator recursion depth) is mirrored here and
+compared with the extracted version."""
 import itertools, os, re, shutil, subprocess, tempfile, time
 from concurrent.futures import ThreadPoolExecutor
 import common as C
@@ -28,9 +30,9 @@ BINS = ["c05"]
 NEEDS_CICADA = True
 ALLOWED_AXIOMS = []
 PINNED = ["C05_highlight_total", "C05_highlight_line", "C05_range_no_panic", "C05_slice_exact", "C05_word_start_total",
-          "C05_from_tokens_total", "C05_plan_total", "C05_tokenizer_lookups", "C05_empty_command_refuted",
-          "C05_planner_partial", "C05_first_word_exact", "C05_shell_panic_iff", "C05_head_word",
-          "C05_stages_with_head_words"]
+          "C05_from_tokens_total", "C05_plan_total", "C05_tokenizer_lookups", "C05_full", "C05_regression",
+          "C05_fix_conservative", "C05_first_word_exact", "C05_shell_panic_iff", "C05_head_word",
+          "C05_never_empty_with_head_words"]
 TRUSTED = [
     "Coq 8.16.1 kernel; vm_compute in witnesses/examples only",
     "hand transcription of find_token_range_heuristic + the highlight loop (Model/Highlight.v), escaped_word_start "
@@ -53,17 +55,6 @@ CRASH_RC = (101, 134, 139)
 
 
 # ------------------------------------------------------------------ foreign classes (mirror of Model/C05Classes.v)
-def digit_run(s):
-    best = cur = 0
-    for ch in s:
-        if "0" <= ch <= "9":
-            cur += 1
-        else:
-            best = max(best, cur)
-            cur = 0
-    return max(best, cur)
-
-
 def is_arithmetic(l):
     if not any("0" <= c <= "9" for c in l) or not any(c in "+-*/^" for c in l) or len(l) < 2:
         return False
@@ -71,30 +62,15 @@ def is_arithmetic(l):
 
 
 def known_foreign(l):
-    out = []
-    if "{" in l and ".." in l and digit_run(l) >= 10:
-        out.append("range")
-    if is_arithmetic(l) and (digit_run(l) >= 19 or "^" in l):
-        out.append("arith")
-    if (("$" in l and "(" in l) or "`" in l) and (">" in l or "<" in l):
-        out.append("subst")
-    if "\n" in l and "$" in l:
-        out.append("nl-dollar")
-    if "=" in l and l.count("$") >= 2:
-        out.append("selfref")
-    if "${" in l:
-        out.append("brace-open")
-    if "<<<" in l:
-        out.append("herestring")
-    return out
+    """the only crash class left whose mechanism belongs to another property (C19 stack_overflow)"""
+    if is_arithmetic(l) and (l.count("(") >= 1000 or l.count("^") >= 1000):
+        return ["calc-deep"]
+    return []
 
 
 # failure mode each foreign class tolerates
-FOREIGN_MODE = {"range": ("PANIC", "HANG"), "arith": ("PANIC",), "subst": ("HANG",), "nl-dollar": ("HANG",),
-                "selfref": ("HANG",), "brace-open": ("HANG",), "herestring": ("SIGPIPE",)}
-FOREIGN_NAME = {"range": "foreign-range-overflow", "arith": "foreign-arith-overflow", "subst": "foreign-subst-hang",
-                "nl-dollar": "foreign-newline-dollar-hang", "selfref": "foreign-selfref-hang",
-                "brace-open": "foreign-brace-open-hang", "herestring": "foreign-herestring-sigpipe"}
+FOREIGN_MODE = {"calc-deep": ("CRASH",)}
+FOREIGN_NAME = {"calc-deep": "foreign-calc-stack-overflow"}
 
 
 class V:
@@ -121,16 +97,8 @@ class V:
 
     def foreign(self, layer, line, mode, observed):
         """an implementation-side PANIC / HANG outside the modelled stages"""
-        cls = known_foreign(line)
-        if mode == "PANIC" and "subst" in cls and (("the len is 0 but the index is 0" in observed and
-                                                      ("src/core.rs" in observed or "src/types.rs" in observed)) or observed == "PANIC"):
-            # the inner line of a substitution plans a command without words: the own class, reached through run_pipeline
-            if self.hit("empty-command-substitution", "e.g. %r -> PANIC (%s)" % (line, layer)):
-                return
-        if mode == "PANIC" and "the len is 0 but the index is 0" in observed:
-            cls = [c for c in cls if c not in ("range", "arith")]    # an index panic is not an integer overflow
-        for c in sorted(cls, key=lambda c: ["brace-open", "nl-dollar", "selfref", "arith", "range", "subst", "herestring"].index(c)):
-            if mode in FOREIGN_MODE[c] and self.hit(FOREIGN_NAME[c], "e.g. %r -> %s (%s)" % (line, mode, layer)):
+        for c in known_foreign(line):
+            if mode in FOREIGN_MODE[c] and self.hit(FOREIGN_NAME[c], "e.g. %r... (%d chars) -> %s (%s)" % (line[:24], len(line), mode, layer)):
                 return
         self.violate(layer, kind="oracle", input=line, observed=observed, failing_input=True,
                      note="the implementation %s on this input; no stage of the model can, and the input is in no "
@@ -213,39 +181,29 @@ def layer1a(ctx, res, vv, lines, tag):
             where.append((ix, k, mm))
     pb = C.write_cases("c05_back_%s.txt" % tag, backs)
     mb = C.run_model(model, pb) if backs else []
-    for (ix, k, mm), mboth in zip(where, mb):
+    for (ix, k, mm), m in zip(where, mb):
         s = lines[ix]
-        m, mfix = mboth.split("\t")       # unrepaired planner / planner with notes/C05-fix-1.patch
         got = "plan=%s fw=%s" % (mm.group(4), mm.group(5))
         mfw = m.rsplit(" fw=", 1)[1]
         ifw = mm.group(5)
         fine = lambda f: f in ("Skip", "Calc", "Run[]", "-")
-        if "OUT-OF-FUEL" in mboth:
+        if "OUT-OF-FUEL" in m or not fine(mfw):
             vv.violate("L1a", kind="oracle", input=s, model=m, impl=got, failing_input=True,
-                       note="the model's from_tokens loop ran out of fuel (theorem C05_from_tokens_total says it cannot)")
+                       note="the MODEL runs out of fuel or predicts a first-word panic: theorems C05_from_tokens_total / C05_full say it cannot")
             continue
-        if not fine(mfw):
+        if got != m:
+            bad = not fine(ifw)
+            vv.violate("L1a", kind="oracle" if bad else "correspondence", function="from_line glue / first-word look-ups",
+                       input=s, model=m, impl=got, failing_input=bad,
+                       note=("the first-word look-ups panic on a planned command without words (index [0] of an empty token "
+                             "list); the model rejects this line with the empty-command error" if bad else
+                             "planner or first-word look-ups differ from Model/Redirect.v + Model/FirstWord.v"))
+            continue
+        if "E(EEmpty)" in m:
+            stats["rejected-empty-command"] = stats.get("rejected-empty-command", 0) + 1
             res.nontrivial("empty:" + mm.group(3))
-        if got == m:
-            if not fine(mfw):
-                # inside the own known class: the unrepaired model predicts a first-word panic and the implementation has it
-                stats["empty-command"] = stats.get("empty-command", 0) + 1
-                if not vv.hit("empty-command", "e.g. %r: %s, as the model predicts" % (s, ifw)):
-                    vv.violate("L1a", kind="oracle", input=s, expected="no panic in the first-word look-ups", observed=got,
-                               failing_input=True, note="a planned command without words is indexed at [0] "
-                                                        "(class empty-command is not listed in known_findings.txt)")
-            elif mm.group(3) != mm.group(1) or "redirs=[(" in m or "E(" in m:
-                res.nontrivial("plan:" + mm.group(3)[:60])
-            continue
-        if got == mfix:
-            # the implementation behaves as the repaired planner (theorem C05_fixed_full): accepted
-            stats["as-repaired-planner"] = stats.get("as-repaired-planner", 0) + 1
-            continue
-        bad = not fine(ifw)
-        vv.violate("L1a", kind="oracle" if bad else "correspondence", function="from_line glue / first-word look-ups",
-                   input=s, model=m, model_repaired=mfix, impl=got, failing_input=bad,
-                   note="planner or first-word look-ups differ from Model/Redirect.v + Model/FirstWord.v (both the unrepaired "
-                        "planner and the one with the empty-command check)")
+        elif mm.group(3) != mm.group(1) or "redirs=[(" in m or "E(" in m:
+            res.nontrivial("plan:" + mm.group(3)[:60])
     res.count("L1a_pure_stages_" + tag, len(lines))
     for k, v in stats.items():
         res.extra.setdefault("l1a_outcomes", {})[tag + ":" + k] = v
@@ -382,13 +340,13 @@ def judge_l2(line, r):
         x = r[mode]
         if x["rc"] == "TIMEOUT":
             return "HANG", "%s: timeout" % mode
-        if x["rc"] in (-13, 141) and not x["panic"]:
-            return "SIGPIPE", "%s: rc=%s (SIGPIPE)" % (mode, x["rc"])
-        if x["panic"] or x["rc"] in CRASH_RC or (isinstance(x["rc"], int) and x["rc"] < 0):
-            shell_died = x["rc"] in CRASH_RC or x["rc"] < 0
-            if mode == "script" and x["sentinel"] and not shell_died:
-                return "PANIC-CHILD", "%s: a child of the shell panicked at %s" % (mode, x["panic"])
+        if x["panic"]:
+            died = x["rc"] in CRASH_RC or (isinstance(x["rc"], int) and x["rc"] < 0)
+            if mode == "script" and x["sentinel"] and not died:
+                return "PANIC", "%s: a child of the shell panicked at %s" % (mode, x["panic"])
             return "PANIC", "%s: rc=%s panicked at %s" % (mode, x["rc"], x["panic"])
+        if x["rc"] in (134, 139, 141) or (isinstance(x["rc"], int) and x["rc"] < 0):
+            return "CRASH", "%s: rc=%s (killed by a signal / abort)" % (mode, x["rc"])
     x = r["script"]
     if not x["sentinel"] and not line.rstrip(" \t").endswith("\\"):
         return "NO-SENTINEL", "script: rc=%s, the line after the input did not run" % x["rc"]
@@ -397,12 +355,16 @@ def judge_l2(line, r):
 
 def layer2(ctx, res, vv, work):
     model, impl = ctx.model["C05"], ctx.bins["c05"]
-    short = all_strings(A14, 4 if ctx.thorough else 3)
+    if ctx.thorough:
+        short = all_strings(A14, 4)
+    else:   # quick: every string up to 2 and a seeded third of those of length 3 (two process spawns per line)
+        short = all_strings(A14, 2) + ctx.rng.sample(["".join(t) for t in itertools.product(A14, repeat=3)], 900)
     rnd = gen_l2_lines(ctx, 6000 if ctx.thorough else 500)
     corpus = ["> f", "< f", "2>&1", "echo a | > f", "a>b>c", "A=1 > f", "echo $(<)", "echo {2147483646..2147483647}",
               "99999999999999999999 + 1", "2 ^ 64", "A='$A'; echo $A", "echo \"a\n$HOME\"", "echo $(ls >)", "echo ${A",
               "echo `>`", "echo a | cat <<< x", "echo 'unbalanced", "echo \"unbalanced", "echo $(", "echo ((1)", "a && && b", "| a",
-              "a ||| b", ";;", "& &", "echo a >", "echo a > > f", "echo 9999999999999999999", "1 +", "(1 + 2", "1 / 0", "ls 3>&9"]
+              "a ||| b", ";;", "& &", "echo a >", "echo a > > f", "echo 9999999999999999999", "1 +", "(1 + 2", "1 / 0", "ls 3>&9", "2 ^ -1", "2 ^ 4294967296",
+              "(" * 20000 + "1" + ")" * 20000 + "+1"]
     lines = corpus + short + rnd
     # mirror check of the class predicates
     p = C.write_cases("c05_cls.txt", [C.case("cls", s) for s in lines])
@@ -424,30 +386,19 @@ def layer2(ctx, res, vv, work):
     stats = {}
     for s, o, r in zip(lines, io, outs):
         j = judge_l2(s, r)
-        pred = set(re.findall(r" fw=(PanicShell|Run\[[0-9,]+\])", o))
         if any(ord(c) > 127 for c in s) or len(s) > 40:
             res.nontrivial("l2:" + s[:50])
+        if o in ("PANIC", "HANG", "CRASH", "NOT-RUN"):
+            vv.foreign("L2-inprocess", s, o, o)
         if j is None:
-            if pred:
-                stats["predicted-not-observed"] = stats.get("predicted-not-observed", 0) + 1
             continue
         mode, detail = j
         stats[mode] = stats.get(mode, 0) + 1
-        # the script path rewrites the line (escapes, $N arguments: C15/C16) before the pure stages see it, so the model's
-        # prediction from the -c path does not apply; a wordless command needs a redirection sign in any case
-        script_only = (detail.startswith("script:") or not o.startswith("segs=")) and ("<" in s or ">" in s)
-        # the look-up sites: an index [0] into an empty token vector in core.rs (try_run_func) / types.rs (is_builtin);
-        # line numbers move with every commit, so the file and the message are tested. None: the stage's stderr was redirected
-        at_site = (("src/core.rs" in detail or "src/types.rs" in detail) and "the len is 0 but the index is 0" in detail) \
-            or "panicked at None" in detail
-        if mode in ("PANIC", "PANIC-CHILD") and (pred or script_only) and at_site:
-            if vv.hit("empty-command", "e.g. %r through the real binary: %s" % (s, detail)):
-                continue
         if mode == "NO-SENTINEL":
             vv.violate("L2", kind="oracle", input=s, observed=repr(r), failing_input=True,
                        note="after this script line the shell did not run the next line (%s)" % detail)
             continue
-        vv.foreign("L2", s, "PANIC" if mode.startswith("PANIC") else mode, detail + " " + repr(r))
+        vv.foreign("L2", s, mode, detail + " " + repr(r))
     res.count("L2_cicada_c_and_script", len(lines))
     res.extra["l2_outcomes"] = stats
     res.sample({"layer": "L2", "input": rnd[0], "result": outs[len(corpus) + len(short)]})
@@ -525,6 +476,69 @@ def pty_session(ctx, work, ix, keys):
             "panic": ("panicked at" in text), "status": status, "tail": tail[-200:].decode("utf-8", "replace")}
 
 
+def pty_ctrl_c(ctx, work, ix):
+    """Enter, then Ctrl-C a few milliseconds later, while the shell is still (or again) the foreground process group
+    and the terminal is back in cooked mode: the SHELL must not be killed by the SIGINT."""
+    import pty, select, fcntl, struct, termios
+    delay = 0.005 * (1 + ix % 6)
+    cmd = ["true", "nosuchcmd", "sleep 0"][ix % 3]
+    root = tempfile.mkdtemp(prefix="l3c_", dir=work)
+    env = {"HOME": root, "XDG_CONFIG_HOME": root, "PATH": "/usr/bin:/bin", "TERM": "xterm", "LANG": "C.UTF-8",
+           "HISTORY_FILE": os.path.join(root, "h.sqlite"), "RUST_BACKTRACE": "0"}
+    pid, fd = pty.fork()
+    if pid == 0:
+        fcntl.ioctl(0, termios.TIOCSWINSZ, struct.pack("HHHH", 24, 200, 0, 0))
+        os.chdir(root)
+        os.execve(ctx.cicada, ["cicada"], env)
+
+    def rd(t):
+        out = b""
+        end = time.time() + t
+        while time.time() < end:
+            r, _, _ = select.select([fd], [], [], 0.02)
+            if r:
+                try:
+                    b = os.read(fd, 4096)
+                except OSError:
+                    break
+                if not b:
+                    break
+                out += b
+        return out
+    rd(0.8)
+    tail = b""
+    try:
+        os.write(fd, (cmd + "\r").encode())
+        time.sleep(delay)
+        os.write(fd, b"\x03")
+        rd(0.8)
+        os.write(fd, b" echo C05''PTY''SENTINEL\r")
+        tail = rd(1.0)
+    except OSError:
+        pass
+    status = None
+    try:
+        p, st = os.waitpid(pid, os.WNOHANG)
+        if p:
+            status = st
+    except ChildProcessError:
+        pass
+    if status is None:
+        try:
+            os.kill(pid, 9)
+            _, st = os.waitpid(pid, 0)
+            if not (os.WIFSIGNALED(st) and os.WTERMSIG(st) == 9):
+                status = st      # it was already dead (a zombie the WNOHANG call raced with): keep ITS status
+        except OSError:
+            pass
+    try:
+        os.close(fd)
+    except OSError:
+        pass
+    shutil.rmtree(root, ignore_errors=True)
+    return {"cmd": cmd, "delay_ms": int(delay * 1000), "answered": b"C05PTYSENTINEL" in tail, "status": status}
+
+
 def layer3(ctx, res, vv, work):
     rng = ctx.rng
     pool = [chr(c) for c in range(0x20, 0x7f)] + list("éü中文€\U0001F600　Жא") + ["\t", "\t", "\r", "\r", "\x7f", "\x1b[D", "\x1b[A", "\x01", "\x05"]
@@ -542,7 +556,25 @@ def layer3(ctx, res, vv, work):
         if o["panic"] or not o["answered"]:
             mode = "PANIC" if o["panic"] else "HANG"
             vv.foreign("L3", typed, mode, repr(o))
-    res.count("L3_pty_sessions", len(sess))
+    # Enter + Ctrl-C race (three-way: class sigint-kills-shell)
+    n = 48 if ctx.thorough else 12
+    with ThreadPoolExecutor(max_workers=6) as ex:
+        co = list(ex.map(lambda i: pty_ctrl_c(ctx, work, i), range(n)))
+    died = [o for o in co if o["status"] is not None and os.WIFSIGNALED(o["status"]) and os.WTERMSIG(o["status"]) == 2]
+    other = [o for o in co if not o["answered"] and o not in died]
+    res.extra["l3_ctrl_c_race"] = {"sessions": n, "shell_killed_by_sigint": len(died), "unanswered_otherwise": len(other)}
+    if died:
+        if not vv.hit("sigint-kills-shell", "%d of %d sessions (Enter, Ctrl-C 5-30 ms later): the shell was killed by SIGINT, e.g. %r"
+                      % (len(died), n, died[0])):
+            vv.violate("L3", kind="oracle", input="%s<Enter><Ctrl-C after %d ms>" % (died[0]["cmd"], died[0]["delay_ms"]),
+                       observed=repr(died[0]), failing_input=True,
+                       note="Ctrl-C typed right after Enter kills the interactive shell itself (SIGINT, default action)")
+    for o in other[:2]:
+        o2 = pty_ctrl_c(ctx, work, co.index(o))
+        if not o2["answered"] and not (o2["status"] is not None and os.WIFSIGNALED(o2["status"]) and os.WTERMSIG(o2["status"]) == 2):
+            vv.violate("L3", kind="oracle", input="%s<Enter><Ctrl-C after %d ms>" % (o["cmd"], o["delay_ms"]), observed=repr(o2),
+                       failing_input=True, note="after Enter + Ctrl-C the shell does not answer the next command (twice)")
+    res.count("L3_pty_sessions", len(sess) + n)
     res.sample({"layer": "L3", "keys": "".join(sess[0]), "result": outs[0]})
 
 
